@@ -51,4 +51,17 @@ def mutants(ctx):
         Mutant("get_vp_threads_bound_off_by_one", U, "        (vp >= parsec_nbvp) ||\n        (NULL == parsec_vpmap) )\n        return PARSEC_ERR_BAD_PARAM;\n    return parsec_vpmap[vp].nbthreads;", "        (vp > parsec_nbvp) ||\n        (NULL == parsec_vpmap) )\n        return PARSEC_ERR_BAD_PARAM;\n    return parsec_vpmap[vp].nbthreads;", queries=["plain_c4_t2"]),
     ]
 
-CLAIMED = False
+CLAIMED = True
+MANIFEST = {
+ "engine": "cbmc-src",
+ "text": "Bounded model checking of the real parsec/vpmap.c (included): parsec_vpmap_init on every plain specification of a table (NULL, flat, display:flat, junk, empty, malformed rr:, "
+         "missing file), on rr:n:p:c for a table of (n,p,c) including invalid ones, and on map files of up to 2 lines chosen from 8 line templates (all-rank / own-rank / other-rank / "
+         "malformed lines; core list, core range, start;end;step and hexadecimal-mask bindings), for 2 and 4 cores: number of VPs, threads per VP, total threads, every thread mask "
+         "(exactly the cores named), VP mask = union, every core index inside the available cores, queries outside the map refused, fini releases everything; bounds/pointer checks on. "
+         "Two genuine crash defects were found (rr:n:p:c dereferences a NULL map; every existing map file corrupts memory) and are recorded as known findings with fix patches; "
+         "the check excludes exactly those two classes and fails on anything else.",
+ "note": "hwloc bitmap layer, core count, MPI rank, file I/O and a few libc parsers (strtol family, sscanf, asprintf in CBMC mode) are harness stubs; hwloc: map and the consumers in parsec.c outside; "
+         "inputs are tables of specifications / line templates, not arbitrary strings (symbolic strings make CBMC's array theory diverge); with the known findings active only the "
+         "flat-map paths are exercised on the unrepaired tree.",
+ "technique": "CBMC bounded symbolic execution of the real C unit + SAT (cadical), native ASan replay, end-to-end crash reproduction with the built product",
+}
